@@ -1088,6 +1088,15 @@ _UFUNC_MAP = {
 }
 
 
+def polyval(coeffs, x, name=None):
+    """Horner scheme, highest power first (tf.math.polyval)"""
+    x = convert_to_tensor(x)
+    acc = zeros_like(x)
+    for c in coeffs:
+        acc = acc * x + c
+    return acc
+
+
 def build():
     tf = _Mod("tensorflow")
     tf.__version__ = "2.99.0-shim"
@@ -1136,6 +1145,7 @@ def build():
     m.add_n = tf.add_n
     m.multiply = tf.multiply
     m.is_nan = lambda x: convert_to_tensor(x) != convert_to_tensor(x)
+    m.polyval = polyval
     tf.math = m
 
     la = _Mod("tensorflow.linalg")
